@@ -15,6 +15,32 @@ import (
 	"verifharness/sim"
 )
 
+// errText renders an error without trusting it (a typed nil pointer inside the interface
+// makes Error() panic).
+func errText(err error) (s string) {
+	if err == nil {
+		return "<nil>"
+	}
+	defer func() {
+		if r := recover(); r != nil {
+			s = fmt.Sprintf("<%T whose Error() panics: %v>", err, r)
+		}
+	}()
+	return err.Error()
+}
+
+// notInGroupHit reports whether some DeleteNodes call of the scan answered not-in-group.
+func notInGroupHit(rec *ScanRecord) bool {
+	for _, gr := range rec.Groups {
+		for _, e := range gr.DeleteCalls {
+			if strings.Contains(e.ErrType, "NodeNotInNodeGroup") {
+				return true
+			}
+		}
+	}
+	return false
+}
+
 // Violation is one monitor verdict.
 type Violation struct {
 	Prop string `json:"prop"`
@@ -815,7 +841,9 @@ func (w *World) M12(rec *ScanRecord) []Violation {
 	if rec.Panic == nil && !rec.FatalExit {
 		stopAt := -1
 		if rec.Err != nil {
-			if _, fatal := rec.Err.(*cloudprovider.NodeNotInNodeGroup); !fatal && !strings.Contains(rec.Err.Error(), "could not find node group") {
+			if _, fatal := rec.Err.(*cloudprovider.NodeNotInNodeGroup); fatal && !notInGroupHit(rec) {
+				out = append(out, viol("C12", "scan-stopped-without-not-in-group", "RunOnce returned the fatal not-in-group error type (%s) although no removal was answered not-in-group: a non-fatal failure stopped the scan", errText(rec.Err)))
+			} else if !fatal && !strings.Contains(errText(rec.Err), "could not find node group") {
 				stopAt = -2 // undocumented error: judged by M20
 			}
 		}
@@ -830,6 +858,22 @@ func (w *World) M12(rec *ScanRecord) []Violation {
 	return out
 }
 
+// gaugeMismatch compares the request and capacity gauges a scan set with the exact totals
+// computed from the reference attribution; it returns descriptions of what differs.
+func gaugeMismatch(gr *GroupRec) (request, capacity string) {
+	if gr.Gauge["cpu_request"] == GaugeUnset {
+		return
+	}
+	f := func(b *big.Int) float64 { v, _ := new(big.Float).SetInt(b).Float64(); return v }
+	if c, m := gr.Gauge["cpu_request"], gr.Gauge["mem_request"]; c != f(gr.GV.ReqCPU) || m != f(gr.GV.ReqMem) {
+		request = fmt.Sprintf("request gauges cpu=%v mem=%v, exact totals over the group's pods cpu=%v mem=%v", c, m, gr.GV.ReqCPU, gr.GV.ReqMem)
+	}
+	if c, m := gr.Gauge["cpu_capacity"], gr.Gauge["mem_capacity"]; c != f(gr.GV.CapCPU) || m != f(gr.GV.CapMem) {
+		capacity = fmt.Sprintf("capacity gauges cpu=%v mem=%v, exact allocatable over the group's untainted uncordoned nodes cpu=%v mem=%v", c, m, gr.GV.CapCPU, gr.GV.CapMem)
+	}
+	return
+}
+
 // M13: request and capacity gauges equal the exact totals (C13, end-to-end half).
 func (w *World) M13(rec *ScanRecord) []Violation {
 	var out []Violation
@@ -837,12 +881,14 @@ func (w *World) M13(rec *ScanRecord) []Violation {
 		if !gr.Processed || gr.Dry || len(gr.GV.MaybePods) > 0 {
 			continue
 		}
-		if c := gr.Gauge["cpu_request"]; c != GaugeUnset {
-			wantC, _ := new(big.Float).SetInt(gr.GV.ReqCPU).Float64()
-			wantM, _ := new(big.Float).SetInt(gr.GV.ReqMem).Float64()
-			if c != wantC || gr.Gauge["mem_request"] != wantM {
-				out = append(out, viol("C13", "request-gauge-mismatch", "group %d: request gauges cpu=%v mem=%v, exact totals cpu=%v mem=%v", gr.G, c, gr.Gauge["mem_request"], wantC, wantM))
-			}
+		rq, cp := gaugeMismatch(gr)
+		if rq != "" {
+			out = append(out, viol("C13", "request-gauge-mismatch", "group %d: %s", gr.G, rq))
+			out = append(out, viol("C12", "evaluated-from-other-pods", "group %d: %s", gr.G, rq))
+		}
+		if cp != "" {
+			out = append(out, viol("C13", "capacity-gauge-mismatch", "group %d: %s", gr.G, cp))
+			out = append(out, viol("C12", "evaluated-from-other-nodes", "group %d: %s", gr.G, cp))
 		}
 	}
 	return out
@@ -1006,7 +1052,7 @@ func (w *World) M19(rec *ScanRecord) []Violation {
 	}
 	if hit >= 0 && rec.Panic == nil && !rec.FatalExit {
 		if _, ok := rec.Err.(*cloudprovider.NodeNotInNodeGroup); !ok {
-			out = append(out, viol("C19", "not-in-group-not-fatal", "group %d hit a not-in-group error but RunOnce returned %v", hit, rec.Err))
+			out = append(out, viol("C19", "not-in-group-not-fatal", "group %d hit a not-in-group error but RunOnce returned %s", hit, errText(rec.Err)))
 		}
 	}
 	return out
@@ -1036,10 +1082,13 @@ func (w *World) M20(rec *ScanRecord) []Violation {
 	}
 	if rec.Err != nil {
 		_, fatal := rec.Err.(*cloudprovider.NodeNotInNodeGroup)
-		msg := rec.Err.Error()
+		msg := errText(rec.Err)
+		if fatal && !notInGroupHit(rec) {
+			fatal = false
+		}
 		documented := fatal || strings.Contains(msg, "could not find node group") || strings.Contains(msg, "injected failure")
 		if !documented {
-			out = append(out, viol("C20", "undocumented-error", "RunOnce returned %v", rec.Err))
+			out = append(out, viol("C20", "undocumented-error", "RunOnce returned %s", msg))
 		}
 	}
 	return out
